@@ -242,10 +242,50 @@ def u5(ctx, rid):
         raise core.AnchorLost('cut sites')
 
 
+def u6(ctx, rid):
+    """the point lookup merges the active blob with *every* candidate closed blob: every ok-return of the latest-entry merge is
+    dominated by the exhaustion (None) edge of the closed-blob stream; an early return after the active blob is never sound
+    because a closed blob may hold a record with a greater timestamp"""
+    prog = ctx.prog
+    fid = 'storage::core::Storage::<K>::get_latest_entry'
+    f = prog.body_of(fid)
+    if f is None:
+        raise core.AnchorLost(fid)
+    key = 'merge-consults-closed-blobs|' + fid
+    nexts = [c for c in f.calls if c.name == 'next' and ('Stream' in (c.trait or '') or 'StreamExt' in c.path or 'stream' in c.path.lower())]
+    none_edges = []
+    for c in nexts:
+        carry = core.result_flow(f, c)
+        for j in f.reachable():
+            t = f.blocks[j]['t']
+            if t['k'] != 'switch':
+                continue
+            l = op_local(t['o'])
+            for (bb, si, kind, r) in f.defs().get(l, []):
+                if kind == 'assign' and r['k'] == 'discr' and r['p'][0] in carry and (core.place_type_str(f, r['p']) or '').startswith('std::option::Option'):
+                    hit = False
+                    for v, tg in t['vals']:
+                        if v == 0:
+                            none_edges.append(tg)
+                            hit = True
+                    if not hit and all(v == 1 for v, _ in t['vals']):
+                        none_edges.append(t['otherwise'])
+    exits = [bb for (bb, k, _) in core.exit_defs(f) if k in ('ok', 'fwd') and bb in f.reachable()]
+    if not none_edges:
+        ctx.bad(rid, key, f.where(), 'the latest-entry lookup does not iterate the closed blobs to exhaustion')
+    elif any(e in f.reach_from([0], avoid_enter=none_edges) for e in exits):
+        bad = [e for e in exits if e in f.reach_from([0], avoid_enter=none_edges)]
+        ctx.bad(rid, key, f.where(bad[0]), 'the latest-entry lookup can return Ok before the closed blobs were consulted: a record with a greater timestamp (or a deletion marker) in a closed blob is ignored',
+                witness=['bb%d %s' % (b, f.where(b)) for b in (f.path([0], bad, avoid_enter=none_edges) or [])])
+    else:
+        ctx.ok(rid, key, f.where(), 'every ok-return is dominated by the exhaustion of the closed-blob stream')
+
+
 RULES = [
     Rule('C02.U1', 'the append in the write path is dominated by the duplicate policy branch; a found duplicate is acknowledged without storing', u1, 1),
     Rule('C02.U2', 'closed blobs are only ever marked with only_if_presented = true', u2, 2),
     Rule('C02.U3', 'version lists are merged with a stable sort', u3, 1),
     Rule('C02.U4', 'a deletion marker is appended only unconditionally or when the blob\'s latest record is live', u4, 1),
     Rule('C02.U5', 'version lists are cut immediately after the first deletion marker (per blob and across blobs)', u5, 2),
+    Rule('C02.U6', 'the point lookup consults every candidate closed blob before it returns Ok', u6, 1),
 ]
